@@ -382,15 +382,15 @@ PROPS["C14"] = {
 PROPS["C15"] = {
     "quick": [J("dev", "history", nshards=4), J("rel", "history", nshards=2), J("dev", "history", detect="off", nshards=2),
               J("compact-nofeat", "history", ["--no-shadow"], nshards=2), J("nofeat", "history", ["--no-shadow"], nshards=2),
-              J("dev", "threads", nshards=2), J("rel", "threads", nshards=2), J("dev", "threads", detect="off"),
+              J("dev", "threads", nshards=4), J("rel", "threads", nshards=4), J("dev", "threads", detect="off", nshards=2, scale=0.5),
               J("dev", "firstuse", nshards=2), J("rel", "firstuse", nshards=2), J("dev", "firstuse", detect="off"),
-              J("tsan", "threads", scale=0.3), J("tsan", "firstuse", scale=0.3),
+              J("tsan", "threads", scale=0.04), J("tsan", "firstuse", scale=0.3),
               # address-dependent fast paths of the big-endian software backends
               J("miri-s390x", "history", ["--filter", "kuznyechik::Kuznyechik#new"], nshards=2, scale=0.002, timeout=2400)],
     "thorough": [J(c, "history", nshards=8) for c in ("dev", "rel", "soft", "compact", "compact-nofeat", "nofeat")] + [J("dev", "history", detect="off", nshards=4)] +
-                [J(c, "threads", nshards=4) for c in ("dev", "rel", "soft")] + [J("dev", "threads", detect="off", nshards=2)] +
+                [J(c, "threads", nshards=8) for c in ("dev", "rel", "soft")] + [J("dev", "threads", detect="off", nshards=4)] +
                 [J("dev", "firstuse", nshards=8), J("rel", "firstuse", nshards=8), J("dev", "firstuse", detect="off", nshards=4),
-                 J("tsan", "threads", nshards=4), J("tsan", "threads", detect="off", nshards=2), J("tsan", "firstuse", nshards=4, scale=0.2),
+                 J("tsan", "threads", nshards=4, scale=0.05), J("tsan", "threads", detect="off", nshards=2, scale=0.05), J("tsan", "firstuse", nshards=4, scale=0.2),
                  J("tsan", "history", nshards=2, scale=0.2),
                  J("miri-x64", "threads", ["--no-shadow", "--filter", "aes::"], nshards=4, scale=0.02, timeout=3000),
                  J("miri-x64", "threads", ["--no-shadow", "--filter", "uznyechik"], nshards=2, scale=0.02, timeout=3000),
